@@ -1481,3 +1481,8 @@ package gojq
 //@   modifies *
 //@   call f requires (v is string) ==> len(arg0) == rcount(v.(string)) && (forall k :: {arg0[k]} 0 <= k && k < len(arg0) ==> arg0[k] == runeAt(v.(string), k))
 //@   call f requires (v is string) ==> (x is string) && len(arg1) == rcount(x.(string)) && (forall k :: {arg1[k]} 0 <= k && k < len(arg1) ==> arg1[k] == runeAt(x.(string), k))
+
+// C08: TypeOf accepts only the JSON representation types (documented; it panics on anything else)
+//@ func TypeOf(v any) (s string)
+//@   property C08
+//@   requires djson(v)
